@@ -405,6 +405,38 @@ def run(prog, ctx):
                 verdict, wit = None, "not evaluable: %s" % (u,)
         res.tri(verdict, "C03.V", "C03.V|%s" % A4, "Array4::get does not return what Array4::update stored: %s" % wit, g4.id)
     res.rule("C03.V", n_v, 1, "register accessor of the 4-bit array vs its writer")
+    # C03.W  an HllSketch couples `lg_config_k` with the size of the array in `mode`: code outside the sketch module that replaces
+    #        the mode wholesale through the `&mut Mode` accessor keeps the old lg_config_k; if the new array was built at an lg taken
+    #        from somewhere else (a parameter: the source's lg_k), wrapper and array disagree
+    n_w = 0
+    for f in reach:
+        if f.promoted or f.id.startswith("hll::sketch::"):
+            continue
+        sw = None
+        mm = [site["dest"] for b, site in f.calls() if (site.get("callee") or "").endswith("HllSketch::mode_mut") and isinstance(site["dest"], int)]
+        if not mm:
+            continue
+        for bb in f.blocks:
+            if bb.cleanup:
+                continue
+            for st in bb.stmts:
+                if st[0] != "=" or isinstance(st[1], int):
+                    continue
+                pl = st[1]
+                if not (pl[0] in mm and len(pl[1]) == 1 and pl[1][0][0] == "*"):
+                    continue
+                sw = sw or Sym(prog, f)
+                try:
+                    e = sw.at(bb.idx, "t").rvalue(st[2])
+                except Exception:
+                    continue
+                n_w += 1
+                u8_params = [("param", i, f.local_name(i) or "") for i in range(1, f.argc + 1) if f.local_ty(i) == "u8"]
+                foreign_lg = [p for p in u8_params if any(y[:2] == p[:2] for y in sym.walk(e) if y[0] == "param")]
+                res.tri(False if foreign_lg else None, "C03.W", "C03.W|%s" % f.id,
+                        "%s replaces the gadget's mode through mode_mut() with an array built from `%s` while the sketch keeps its old lg_config_k: the wrapper and "
+                        "its register array can disagree on k" % (f.id, foreign_lg[0][2] if foreign_lg else "?"), f.id, st[3] if len(st) > 3 else None)
+    res.rule("C03.W", n_w, 0, "wholesale mode replacement through the &mut Mode accessor")
     res.explanation = ("structural rules over the %d functions reachable from HllUnion::{update,to_sketch,reset,new}: gadget adoption guard, "
                        "max-merge stores, down-sample masks, cache rebuild post-domination, estimator-state transfer, gadget type" % len(reach))
     res.not_decided = "order/repetition independence and numeric equality of estimates"
